@@ -63,6 +63,6 @@ LEVEL_TEXT = (
     "event log and the set of scheduled teardown callbacks unchanged; once a pair has returned an object it keeps returning it. Held on "
     "the sampled histories, both backends."
 )
-LEVEL_NOTE = "Trusted: models/ctxtree.py, the harness. Unhashable / exotic type objects are not generated."
+LEVEL_NOTE = "Trusted: models/ctxtree.py, the harness. Unhashable type objects are not generated (generic and Annotated aliases are)."
 TECHNIQUE = "lock-step reference model; failure-atomicity by whole-state snapshot comparison after every raising call"
 DESIGN_REF = "DESIGN.md section 3, C03"
